@@ -188,11 +188,12 @@ FAMILIES["arrmeth"] = {
         {"wrap": "impl ArrayMeta", "items": [
             {"kind": "fn", "file": "src/array.rs", "impl": AM, "fn": f} for f in
             ["get_inner_mut", "get_mut", "is_sorted_up", "is_sorted_down", "take_sorted_flags", "take_value_flags", "or_sorted_flags",
-             "mark_sorted_up", "mark_sorted_down", "reset_flags"]]},
+             "mark_sorted_up", "mark_sorted_down", "reset_flags", "take_map_keys"]]},
         {"wrap": "impl<T: ArrayValue> Array<T>", "items": [
             {"kind": "fn", "name": "Array::row_slice", "file": "src/array.rs", "impl": r"^impl<T> Array<T> \{", "fn": "row_slice"},
             {"kind": "fn", "name": "Array::validate", "file": "src/array.rs", "impl": r"^impl<T: ArrayValue> Array<T> \{", "fn": "validate"},
             {"kind": "fn", "name": "Array::reverse_depth", "file": "src/algorithm/monadic/mod.rs", "impl": r"^impl<T: ArrayValue> Array<T> \{", "fn": "reverse_depth"},
+            {"kind": "fn", "name": "Array::transpose_depth", "file": "src/algorithm/monadic/mod.rs", "impl": r"^impl<T: ArrayValue> Array<T> \{", "fn": "transpose_depth"},
         ]},
     ],
 }
